@@ -334,14 +334,18 @@ type kindRep struct {
 // per-kind matcher implementations, each reached the ways the package offers
 var directReps = map[byte][]kindRep{
 	'D': {
-		{"linear.Insert.AppendTo", func(r []string) (DS, error) { return appendTo(insertAll(domainset.NewDomainLinearMatcher(0), r)) }},
 		{"linear.raw", func(r []string) (DS, error) { return DS{domainset.DomainLinearMatcher(slices.Clone(r))}, nil }},
+		{"map.FromSlice.raw", func(r []string) (DS, error) { return DS{domainset.DomainMapMatcherFromSlice(r)}, nil }},
+		{"binsearch.FromSlice.raw", func(r []string) (DS, error) { return DS{domainset.DomainBinarySearchMatcherFromSlice(r)}, nil }},
+		{"binsearch.FromSeq.raw", func(r []string) (DS, error) {
+			return DS{domainset.DomainBinarySearchMatcherFromSeq(len(r), slices.Values(r))}, nil
+		}},
+		{"linear.Insert.AppendTo", func(r []string) (DS, error) { return appendTo(insertAll(domainset.NewDomainLinearMatcher(0), r)) }},
 		{"linear.FromSeq.AppendTo", func(r []string) (DS, error) {
 			m := domainset.DomainLinearMatcherFromSeq(len(r), slices.Values(r))
 			return appendTo(&m)
 		}},
 		{"map.Insert.AppendTo", func(r []string) (DS, error) { return appendTo(insertAll(domainset.NewDomainMapMatcher(0), r)) }},
-		{"map.FromSlice.raw", func(r []string) (DS, error) { return DS{domainset.DomainMapMatcherFromSlice(r)}, nil }},
 		{"map.FromSeq.AppendTo", func(r []string) (DS, error) {
 			m := domainset.DomainMapMatcherFromSeq(len(r), slices.Values(r))
 			return appendTo(&m)
@@ -349,30 +353,26 @@ var directReps = map[byte][]kindRep{
 		{"binsearch.Insert.AppendTo", func(r []string) (DS, error) {
 			return appendTo(insertAll(domainset.NewDomainBinarySearchMatcher(0), r))
 		}},
-		{"binsearch.FromSlice.raw", func(r []string) (DS, error) { return DS{domainset.DomainBinarySearchMatcherFromSlice(r)}, nil }},
-		{"binsearch.FromSeq.raw", func(r []string) (DS, error) {
-			return DS{domainset.DomainBinarySearchMatcherFromSeq(len(r), slices.Values(r))}, nil
-		}},
 	},
 	'S': {
-		{"linear.Insert.AppendTo", func(r []string) (DS, error) { return appendTo(insertAll(domainset.NewSuffixLinearMatcher(0), r)) }},
 		{"linear.raw", func(r []string) (DS, error) { return DS{domainset.SuffixLinearMatcher(slices.Clone(r))}, nil }},
+		{"map.FromSlice.raw", func(r []string) (DS, error) { return DS{domainset.SuffixMapMatcherFromSlice(r)}, nil }},
+		{"trie.FromSlice.raw", func(r []string) (DS, error) { return DS{domainset.DomainSuffixTrieFromSlice(r)}, nil }},
+		{"trie.FromSeq.raw", func(r []string) (DS, error) {
+			return DS{domainset.DomainSuffixTrieFromSeq(len(r), slices.Values(r))}, nil
+		}},
+		{"trie.Insert.AppendTo", func(r []string) (DS, error) {
+			return appendTo(insertAll(domainset.NewDomainSuffixTrieMatcherBuilder(0), r))
+		}},
+		{"linear.Insert.AppendTo", func(r []string) (DS, error) { return appendTo(insertAll(domainset.NewSuffixLinearMatcher(0), r)) }},
 		{"linear.FromSeq.AppendTo", func(r []string) (DS, error) {
 			m := domainset.SuffixLinearMatcherFromSeq(len(r), slices.Values(r))
 			return appendTo(&m)
 		}},
 		{"map.Insert.AppendTo", func(r []string) (DS, error) { return appendTo(insertAll(domainset.NewSuffixMapMatcher(0), r)) }},
-		{"map.FromSlice.raw", func(r []string) (DS, error) { return DS{domainset.SuffixMapMatcherFromSlice(r)}, nil }},
 		{"map.FromSeq.AppendTo", func(r []string) (DS, error) {
 			m := domainset.SuffixMapMatcherFromSeq(len(r), slices.Values(r))
 			return appendTo(&m)
-		}},
-		{"trie.Insert.AppendTo", func(r []string) (DS, error) {
-			return appendTo(insertAll(domainset.NewDomainSuffixTrieMatcherBuilder(0), r))
-		}},
-		{"trie.FromSlice.raw", func(r []string) (DS, error) { return DS{domainset.DomainSuffixTrieFromSlice(r)}, nil }},
-		{"trie.FromSeq.raw", func(r []string) (DS, error) {
-			return DS{domainset.DomainSuffixTrieFromSeq(len(r), slices.Values(r))}, nil
 		}},
 	},
 	'K': {
@@ -516,6 +516,8 @@ type domOpts struct {
 	file     bool          // domainset.Config{Type,Path}.DomainSet() on files in a scratch directory
 	clearX   bool          // converter's -skipRegexp: Clear() the regexp builder before writing
 	all      bool          // collect every failure (replay) instead of stopping at the first
+	detOnly  bool          // direct representations only, skipping those whose insertion order comes from Go map iteration
+	nocount  bool          // do not count this run as a case (root-cause attribution re-runs)
 }
 
 type domFail struct {
@@ -646,7 +648,9 @@ func (dc *domCtx) check(w *domWorker, t *tally, seq []item, o domOpts) (fails []
 	}
 	n1 := w.all.ones()
 	nontrivial = n1 > 0 && n1 < len(dc.probes)
-	t.cases++
+	if !o.nocount {
+		t.cases++
+	}
 
 	fail := func(f *domFail) bool {
 		if f == nil {
@@ -668,6 +672,9 @@ func (dc *domCtx) check(w *domWorker, t *tally, seq []item, o domOpts) (fails []
 				}
 			}
 			for _, src := range convSrcs[kb] {
+				if o.detOnly && src.name == "map" {
+					continue
+				}
 				for _, dst := range convDsts[kb] {
 					if fail(dc.cmp(w, t, string(kb)+"/"+src.name+".Rules>"+dst.name, w.exp[k], true, func() (DS, error) {
 						return dst.mk(insertAll(src.mk(), rules[k]))
@@ -786,6 +793,66 @@ func (dc *domCtx) check(w *domWorker, t *tally, seq []item, o domOpts) (fails []
 	return
 }
 
+// checkCase is check plus root-cause attribution: when the first failure is
+// in a derived representation (a set path, a text variant, or a representation
+// whose insertion order comes from Go's map iteration), the per-kind matcher
+// implementations are run on every permutation of the same rules (<=4 rules;
+// otherwise as given and reversed), and if one of them already fails, that
+// simpler failure is reported instead.  This keeps signatures few and stable:
+// one defect in a matcher is named after the matcher, not after every path
+// that happens to contain it.
+func (dc *domCtx) checkCase(w *domWorker, t *tally, seq []item, o domOpts) (fails []domFail, failSeq []item, nontrivial bool) {
+	fails, nontrivial = dc.check(w, t, seq, o)
+	failSeq = seq
+	if len(fails) == 0 || o.all {
+		return
+	}
+	f := fails[0]
+	if isDeterministicDirect(f.Rep) {
+		return
+	}
+	try := func(p []item) bool {
+		fs, _ := dc.check(w, t, p, domOpts{direct: true, detOnly: true, nocount: true})
+		if len(fs) > 0 {
+			fails, failSeq = fs[:1], slices.Clone(p)
+			return true
+		}
+		return false
+	}
+	if len(seq) <= 4 {
+		perm := slices.Clone(seq)
+		var rec func(k int) bool
+		rec = func(k int) bool {
+			if k == len(perm) {
+				return try(perm)
+			}
+			for i := k; i < len(perm); i++ {
+				perm[k], perm[i] = perm[i], perm[k]
+				if rec(k + 1) {
+					return true
+				}
+				perm[k], perm[i] = perm[i], perm[k]
+			}
+			return false
+		}
+		rec(0)
+		return
+	}
+	if !try(seq) {
+		r := slices.Clone(seq)
+		slices.Reverse(r)
+		try(r)
+	}
+	return
+}
+
+func isDeterministicDirect(rep string) bool {
+	if len(rep) < 2 || rep[1] != '/' {
+		return false
+	}
+	return !strings.Contains(rep, "/map.Rules>")
+}
+
 // ---------------------------------------------------------------------------
 // enumeration parts
 
@@ -850,15 +917,15 @@ func runSeqPart(c *harness.Check, partNo int64, name string, dc *domCtx, sp *seq
 		w   *domWorker
 		buf []item
 	}
-	sampleAt := map[int64]bool{sp.size() / 2: true, sp.size() - 1: true}
+	sampleAt := map[int64]bool{sp.size() / 2: true}
 	total, complete := parallel(sp.size(), 64,
 		func() *st { return &st{w: dc.newWorker(""), buf: make([]item, 0, 8)} },
 		func(s *st, t *tally, i int64) {
 			seq := sp.decode(i, s.buf)
-			fails, nontrivial := dc.check(s.w, t, seq, o)
+			fails, fseq, nontrivial := dc.checkCase(s.w, t, seq, o)
 			c.Distinct(canonKey(seq), nontrivial)
 			for _, f := range fails {
-				report(partNo<<48|i, f.sig(), f.what(seq), replayOfDomain(dc, slices.Clone(seq), f))
+				report(partNo<<48|i, f.sig(), f.what(fseq), replayOfDomain(dc, slices.Clone(fseq), f))
 			}
 			if sampleAt[i] {
 				c.Sample(map[string]any{"part": name, "index": i, "rules_in_insertion_order": itemsJSON(seq), "probes": len(dc.probes), "reference_matches": s.w.all.ones()})
@@ -1071,12 +1138,12 @@ func thresholdPart(c *harness.Check, variants []textVariant) {
 		func(w *domWorker, t *tally, i int64) {
 			cf := cfgs[i]
 			seq := build(cf)
-			fails, nontrivial := dc.check(w, t, seq, o)
+			fails, fseq, nontrivial := dc.checkCase(w, t, seq, o)
 			c.Distinct(canonKey(seq), nontrivial)
 			for _, f := range fails {
-				report(9<<48|i, f.sig(), f.what(seq), replayOfDomain(dc, seq, f))
+				report(9<<48|i, f.sig(), f.what(fseq), replayOfDomain(dc, fseq, f))
 			}
-			if i == 5 || i == int64(len(cfgs))-1 {
+			if i == int64(len(cfgs))-1 {
 				first := itemsJSON(seq[:min(6, len(seq))])
 				c.Sample(map[string]any{"part": "domain/threshold-sets", "family": families[cf.fam], "sizes_DSKR": cf.size, "first_rules": first, "probes": len(dc.probes)})
 			}
